@@ -469,6 +469,14 @@ pub fn gen_building(rng: &mut Rng, p: &Profile) -> Building {
         }
     }
 
+    // --- a line repeated verbatim (two identical declarations are two declarations)
+    if !b.lines.is_empty() && rng.chance(0.06) {
+        let i = rng.usize(b.lines.len());
+        let dup = b.lines[i].clone();
+        let pos = if rng.chance(0.5) { i + 1 } else { rng.usize(b.lines.len() + 1) };
+        b.lines.insert(pos, dup);
+    }
+
     // --- shuffle line order a little (systems interleaved) in a third of the runs
     if rng.chance(0.35) {
         rng.shuffle(&mut b.lines);
